@@ -4,7 +4,7 @@
 // terminal_is_recognised).  One instantiation per format because the hook structs are private.
 
 use super::*;
-use crate::verif_common::{instr_time_is_stored, label_round_trip, instr_round_trip, instr_size_field, terminal_is_recognised, Stored, SizeField};
+use crate::verif_common::{read_instr_never_panics, decode_label_never_panics, instr_time_is_stored, label_round_trip, instr_round_trip, instr_size_field, terminal_is_recognised, Stored, SizeField};
 
 macro_rules! c03 {
     ($name:ident, $unwind:literal, $body:expr) => {
@@ -13,6 +13,19 @@ macro_rules! c03 {
         #[kani::stub(alloc::fmt::format, crate::verif_common::stub_fmt_format)]
         #[kani::stub(crate::error::ErrorReported::new, crate::verif_common::stub_error_reported_new)]
         #[kani::stub(crate::io::nice_display_path, crate::verif_common::stub_nice_display_path)]
+        #[kani::stub(crate::llir::fit_instr_field, crate::verif_common::stub_fit_instr_field)]
+        #[kani::stub(crate::llir::forbid_reserved_opcode, crate::verif_common::stub_forbid_reserved_opcode)]
+        fn $name() { $body }
+    };
+}
+macro_rules! c16 {
+    ($name:ident, $unwind:literal, $body:expr) => {
+        #[kani::proof]
+        #[kani::unwind($unwind)]
+        #[kani::stub(alloc::fmt::format, crate::verif_common::stub_fmt_format)]
+        #[kani::stub(crate::error::ErrorReported::new, crate::verif_common::stub_error_reported_new)]
+        #[kani::stub(crate::io::nice_display_path, crate::verif_common::stub_nice_display_path)]
+        #[kani::stub(crate::diagnostic::RootEmitter::emit, crate::verif_common::stub_root_emit)]
         #[kani::stub(crate::llir::fit_instr_field, crate::verif_common::stub_fit_instr_field)]
         #[kani::stub(crate::llir::forbid_reserved_opcode, crate::verif_common::stub_forbid_reserved_opcode)]
         fn $name() { $body }
@@ -117,6 +130,25 @@ c03!(c03_std_quad_terminal, 6, {
 c03!(c13_std06_time_stored, 16, instr_time_is_stored::<12>(&StdHooks06, Stored { param_mask: false, difficulty: false, extra_arg: false, pop_and_arg_count: false, maybe_terminal: false, ignore_param_mask: false }, |_| true));
 //@ C13 c13_std10_time_stored quick default STD (TH095+): if write_instr accepts an instruction, the time read back from the written bytes is the requested time, for every i32 time (a time that does not fit the field must be rejected, never stored differently)
 c03!(c13_std10_time_stored, 8, instr_time_is_stored::<4>(&StdHooks10, Stored { param_mask: false, difficulty: false, extra_arg: false, pop_and_arg_count: false, maybe_terminal: false, ignore_param_mask: false }, |_| true));
+
+// ---------------------------------------------------------------------------------------
+// C16, header level: see read_instr_never_panics / decode_label_never_panics in common.rs
+//@ C16 c16_std06_read_size0 quick default STD (TH06-09): read_instr on arbitrary header bytes whose size field is 0 (not the mandatory 12) returns Ok or Err and never panics (no underflow, no failed assert, no out-of-range read)
+c16!(c16_std06_read_size0, 24, read_instr_never_panics::<20>(&StdHooks06, 6, 2, 0));
+//@ C16 c16_std06_read_size12 quick default STD (TH06-09): read_instr on arbitrary header bytes whose size field is 12 (the mandatory 12) returns Ok or Err and never panics (no underflow, no failed assert, no out-of-range read)
+c16!(c16_std06_read_size12, 24, read_instr_never_panics::<20>(&StdHooks06, 6, 2, 12));
+//@ C16 c16_std06_read_size13 quick default STD (TH06-09): read_instr on arbitrary header bytes whose size field is 13 (more than 12) returns Ok or Err and never panics (no underflow, no failed assert, no out-of-range read)
+c16!(c16_std06_read_size13, 28, read_instr_never_panics::<24>(&StdHooks06, 6, 2, 13));
+//@ C16 c16_std10_read_size0 quick default STD (TH095+): read_instr on arbitrary header bytes whose size field is 0 (smaller than the header) returns Ok or Err and never panics (no underflow, no failed assert, no out-of-range read)
+c16!(c16_std10_read_size0, 12, read_instr_never_panics::<8>(&StdHooks10, 6, 2, 0));
+//@ C16 c16_std10_read_size7 quick default STD (TH095+): read_instr on arbitrary header bytes whose size field is 7 (one less than the header) returns Ok or Err and never panics (no underflow, no failed assert, no out-of-range read)
+c16!(c16_std10_read_size7, 12, read_instr_never_panics::<8>(&StdHooks10, 6, 2, 7));
+//@ C16 c16_std10_read_size8 quick default STD (TH095+): read_instr on arbitrary header bytes whose size field is 8 (header only) returns Ok or Err and never panics (no underflow, no failed assert, no out-of-range read)
+c16!(c16_std10_read_size8, 12, read_instr_never_panics::<8>(&StdHooks10, 6, 2, 8));
+//@ C16 c16_std10_read_size12 quick default STD (TH095+): read_instr on arbitrary header bytes whose size field is 12 (4 argument bytes) returns Ok or Err and never panics (no underflow, no failed assert, no out-of-range read)
+c16!(c16_std10_read_size12, 16, read_instr_never_panics::<12>(&StdHooks10, 6, 2, 12));
+//@ C16 c16_label_std06_no_panic quick default STD TH06-09 label decoding (instruction index * 20) of an arbitrary 32-bit jump argument never panics (no multiplication overflow)
+c16!(c16_label_std06_no_panic, 2, decode_label_never_panics(&StdHooks06));
 
 #[cfg(kani)]
 #[path = "/verif/.cache/playback/std.rs"]
